@@ -14,6 +14,7 @@ From Coq Require Import String Ascii.
 From GS.Spec Require Import ShareSpec CompactSpec LayoutSpec.
 From GS.Model Require Import Base Varint Namespace ShareFmt Blob Sparse Compact Counter Arith Proto Builder Square.
 From GS.Model Require Import Sha256 Nmt Mem.
+From GS.Model Require Import Helpers.
 Open Scope N_scope.
 
 Definition str := String.string.
@@ -354,6 +355,12 @@ Fixpoint builder_steps (b : builder) (ops : list str) : option (list shows) :=
         Some ((s_str "b:" +> s_bool ok +> s_chr ":"%char +> cur b') :: rest)
       | _ => let? rest := builder_steps b t in Some (s_str "b:undecodable" :: rest)
       end
+    else if chr_is k "z" then
+      (* AppendBlobTx with a blob transaction that carries no blobs (only reachable through the builder API) *)
+      let? inner := bytes_of_hex a in
+      let '(b', ok) := append_blob_tx b (mk_btx inner []) in
+      let? rest := builder_steps b' t in
+      Some ((s_str "z:" +> s_bool ok +> s_chr ":"%char +> cur b') :: rest)
     else if chr_is k "x" then
       match export b with
       | Ok (b', sq) => let? rest := builder_steps b' t in Some ((s_str "x:ok:" +> s_square sq) :: rest)
@@ -379,6 +386,16 @@ Fixpoint builder_steps (b : builder) (ops : list str) : option (list shows) :=
         | Err => let? rest := builder_steps b t in Some (s_str "s:err" :: rest)
         | Fault => let? rest := builder_steps b t in Some (s_str "s:fault" :: rest)
         end
+      | _ => None
+      end
+    else if chr_is k "l" then
+      (* BlobShareLength alone (it does not export) *)
+      match split_on "/"%char a with
+      | [p; j] =>
+        let? p := z_of_string p in
+        let? j := z_of_string j in
+        let? rest := builder_steps b t in
+        Some ((s_str "l:" +> s_outcome s_N (blob_share_length b p j)) :: rest)
       | _ => None
       end
     else if chr_is k "w" then
@@ -629,6 +646,49 @@ Section Run.
       let '(d, res, _) := mem_parse_txs_run arena views in
       Some (c17_diff d +> s_chr ";"%char +> s_outcome (s_list s_hex) res)
     else None.
+
+  (* helpers: the small public helpers (Model/Helpers.v) *)
+  Definition s_range_state (r : range) : shows :=
+    s_zrange r +> s_chr "/"%char +> s_bool (range_is_empty r).
+  Definition run_helpers (op : str) : option shows :=
+    if is_str op "sortblobs" then
+      let? s := arg 0 in let? bl := blob_list s in Some (s_list s_blob (sort_blobs bl))
+    else if is_str op "blobcmp" then
+      let? s := arg 0 in let? x := blob_of_string s in let? t := arg 1 in let? y := blob_of_string t in
+      Some (s_Z (blob_compare x y))
+    else if is_str op "blobv0" then
+      let? ns := aH 0 in let? d := aH 1 in Some (s_outcome s_blob (new_v0_blob ns d))
+    else if is_str op "blobv1" then
+      let? ns := aH 0 in let? d := aH 1 in let? sg := aSigner 2 in Some (s_outcome s_blob (new_v1_blob ns d sg))
+    else if is_str op "blobempty" then
+      let? s := arg 0 in let? b := blob_of_string s in
+      Some (s_bool (blob_is_empty b) +> s_chr ":"%char +> s_N (blob_data_len b))
+    else if is_str op "commitments" then
+      let? s := arg 0 in let? bl := blob_list s in let? thr := aN 1 in
+      Some (s_outcome (s_list s_hex) (commitments_sha bl thr))
+    else if is_str op "parseinfo" then
+      let? x := aN 0 in
+      Some (s_outcome (fun i => s_N (b2n i) +> s_chr ":"%char +> s_N (info_version i) +> s_chr ":"%char
+                                +> s_bool (info_start i))
+                      (parse_info_byte (n2b x)))
+    else if is_str op "range" then
+      let? s := aZ 0 in let? e := aZ 1 in let? v := aZ 2 in
+      let r := new_range s e in
+      Some (s_range_state empty_range +> s_chr " "%char +> s_range_state r +> s_chr " "%char
+            +> s_range_state (range_add r v))
+    else if is_str op "nsrepeat" then
+      let? ns := aH 0 in let? k := aZ 1 in Some (s_outcome (s_list s_hex) (ns_repeat ns k))
+    else if is_str op "nsempty" then let? ns := aH 0 in Some (s_bool (ns_is_empty ns))
+    else if is_str op "frombytes" then
+      let? l := aHL 0 in Some (s_outcome (fun shs => s_big_list (to_bytes shs)) (from_bytes l))
+    else if is_str op "sharebytes" then
+      let? d := aH 0 in Some (s_outcome s_hex (bind (new_share d) (fun s => Ok (share_to_bytes s))))
+    else if is_str op "sqequals" then
+      let? x := aHL 0 in let? y := aHL 1 in Some (s_bool (square_equals x y))
+    else if is_str op "sqsizeof" then let? x := aHL 0 in Some (s_N (square_size_of x))
+    else if is_str op "sparsecount" then
+      let? s := arg 0 in let? items := sparse_items s in Some (s_outcome s_N (sparse_count_after items))
+    else None.
 End Run.
 
 Definition arith_ops : list str :=
@@ -647,8 +707,11 @@ Definition square_ops : list str :=
 Definition c05_c17_ops : list str :=
   ["sha256"; "subtreeroots"; "commitment"; "merkleroot"; "rownode"; "memparseblobs"; "memparseblobslegacy";
    "memparsetxs"]%string.
+Definition helpers_ops : list str :=
+  ["sortblobs"; "blobcmp"; "blobv0"; "blobv1"; "blobempty"; "commitments"; "parseinfo"; "range"; "nsrepeat";
+   "nsempty"; "frombytes"; "sharebytes"; "sqequals"; "sqsizeof"; "sparsecount"]%string.
 Definition supported_ops : list str :=
-  "consts"%string :: arith_ops ++ ns_ops ++ share_ops ++ proto_ops ++ square_ops ++ c05_c17_ops.
+  "consts"%string :: arith_ops ++ ns_ops ++ share_ops ++ proto_ops ++ square_ops ++ c05_c17_ops ++ helpers_ops.
 
 Definition mem_str (s : str) (l : list str) : bool := existsb (is_str s) l.
 
@@ -661,6 +724,7 @@ Definition run_op (op : str) (args : list str) : str :=
   else if mem_str op proto_ops then fin (run_proto args op)
   else if mem_str op square_ops then fin (run_square args op)
   else if mem_str op c05_c17_ops then fin (run_c05_c17 args op)
+  else if mem_str op helpers_ops then fin (run_helpers args op)
   else unsupported.
 
 Definition run_case (c : str * str * list str) : str := run_op (snd (fst c)) (snd c).
